@@ -23,6 +23,46 @@ CHECKS = {
    technique='property-based testing: reconstruct output compared bytewise with the fragment encode produced; enumerated flat-XOR sweeps',
    text='Reconstructed fragments compared byte for byte (header, both checksums, payload) with encode\'s own output; out-of-range destinations must be refused with the output untouched.',
    note='Oracle is encode\'s own fragment (itself pinned to an independent serializer by C07).'),
+ 'C04': dict(level='exploration', design='5/C04', engine='sweep+rapidcheck',
+   technique='exhaustive enumeration of all 496 generator matrices against a closed form over independent GF(2^16) arithmetic; rank test of row subsets; generated parity differential',
+   text='All 496 (k,m) generator matrices compared entry by entry with L_j(r)/L_j(k); k-subsets of the library matrix rows inverted independently (exhaustive to n=12 quick / 16 thorough, sampled above); generated data encoded through the public API and compared with the closed-form parity on host-order 16-bit words.',
+   note='Trusts the independent shift-and-xor GF(2^16) model (poly 0x1100b) in ref/ref.hpp; matrix obtained through the exported make_systematic_matrix.'),
+ 'C05': dict(level='exploration', design='5/C05', engine='sweep',
+   technique='exhaustive enumeration over the 38 flat-XOR tables: golden-equation differential, GF(2) rank distance, all erasure sets below hd decoded and reconstructed, two build flavours',
+   text='Exhaustive for the finite parts: tables vs a golden copy of the equations in both directions, minimum distance by rank over all erasure sets up to hd, every erasure set below hd decoded and reconstructed exactly, every unsupported triple in the box refused; payload sizes and content sampled.',
+   note='Golden equations were extracted once from 1.6.4 and independently verified (consistent, distance exactly hd); SSE2 and portable builds both exercised.'),
+ 'C06': dict(level='exploration', design='5/C06', engine='sweep+rapidcheck',
+   technique='exhaustive enumeration of (reconstruct, exclude) pairs with a validity + sufficiency oracle (rank/span, rebuild from only the returned fragments)',
+   text='All in-tolerance (R,X) pairs for every flat-XOR table and for small RS/ISA-L shapes, generated pairs above and beyond tolerance; the returned list must be terminated, in range, distinct, disjoint and actually sufficient (rebuild from it alone), or the call must fail.',
+   note='Sufficiency for XOR decided by GF(2) elimination over the golden equations plus XOR of the real payloads; for RS/ISA by calling reconstruct with only the returned fragments.'),
+ 'C07': dict(level='exploration', design='5/C07', engine='rapidcheck+sweep+compile-time probe',
+   technique='differential testing of every fragment byte against an independent serializer; compile-time layout assertions',
+   text='Every byte of every fragment from encode compared with an independently written serializer (literal offsets, own GF and CRC code) over generated configurations and one case per shape per back end; sizeof/offsetof of the public header asserted at compile time on every run.',
+   note='Library version field taken from liberasurecode_get_version() (must be >= 1.2.0); back-end version constants are frozen in the reference.'),
+ 'C08': dict(level='exploration', design='5/C08', engine='rapidcheck+sweep',
+   technique='property-based testing of the three size queries against arithmetic and against encode output; dense length sweep',
+   text='Size queries compared with arithmetic and with what encode produced, densely for all lengths up to 4 alignment units on 40+ configurations and sampled up to 2^20; unknown descriptors refused.',
+   note='Word size per back end: rs_vand 2, flat_xor 4, null 4, isa_l 1 byte.'),
+ 'C09': dict(level='exploration', design='5/C09', engine='rapidcheck+sweep',
+   technique='mutation-based property testing of header acceptance against an independent predicate (all 640 single-bit flips enumerated)',
+   text='Mutated and re-sealed headers fed to header validation, the metadata query, decode and reconstruct; verdicts compared with an independent accept predicate (magic either order, version gate, standard or historical CRC-32); inputs must stay byte-identical.',
+   note='Safety filter: an accepted header whose geometry fields were changed is not fed to APIs that legitimately trust those fields.'),
+ 'C10': dict(level='exploration', design='5/C10', engine='rapidcheck+sweep',
+   technique='property-based testing with independent bit-serial CRC-32 models (standard and historical) and exhaustive single-bit payload flips for short payloads',
+   text='Written payload/metadata checksums compared with independent CRC models under five values of the legacy-CRC switch; mismatch reporting and validation verdicts compared after generated corruptions; exported historical CRC compared with the model on generated buffers.',
+   note='Historical CRC modelled from its description (sign-extending state), pinned by frozen vectors.'),
+ 'C11': dict(level='exploration', design='5/C11', engine='rapidcheck',
+   technique='metamorphic property testing: field-wise byte-swapped twin must read back identically',
+   text='For generated fragments the opposite-endian twin (fields swapped in place, CRC recomputed and stored swapped) must yield the same metadata field by field, the same verdicts and the same payload-mismatch detection.',
+   note='Fields that read the same both ways are overwritten with asymmetric values in half of the cases so a dropped swap is visible.'),
+ 'C12': dict(level='exploration', design='5/C12', engine='rapidcheck',
+   technique='property-based testing of validation verdicts against an independent validity predicate over re-sealed single-field edits',
+   text='Validator x producer x fragment x re-sealed edit; is_invalid_fragment and verify_stripe_metadata compared with predicates written from the statement; every freshly encoded fragment must validate.',
+   note='Stored mismatch flag with a non-CRC checksum type is not generated (the statement does not decide it).'),
+ 'C13': dict(level='exploration', design='5/C13', engine='sweep+rapidcheck',
+   technique='enumerated argument grid and configuration box with return-code, sanitizer and LeakSanitizer oracles',
+   text='Every entry point x argument position x bad value (single, NULL-combined, with dead descriptor) must return the documented failure and leave nothing allocated; every configuration in the box is either refused or survives a complete encode/decode/reconstruct/query/destroy cycle without sanitizer reports.',
+   note='encode_cleanup/decode_cleanup with NULL buffers on a valid descriptor are allowed to return 0 (the suite pins that); a time budget hit is inconclusive.'),
  'C20': dict(level='exploration', design='5/C20', engine='rapidcheck',
    technique='property-based testing with fault-injected fragments and a validity-aware exact-or-error oracle',
    text='Stripes with damaged members (payload bit flips, re-sealed foreign header fields, unsealed header damage) decoded with force=1; result must be the original when the valid fragments suffice within tolerance, an error when they cannot determine the data, never other bytes.',
